@@ -705,6 +705,7 @@ int main(int argc, char** argv)
     {
         if (c.id < from || c.id >= to) continue;
         emit(J().kv("t", "case_begin").kv("case", c.id).str());
+        arm_case_watchdog(40);
         out().viol_in_case = 0;
         set_ctx(c.id, 0, c.name, "cell", "C20", VF_CFG_STR);
         ledger().junk = c.id % 4;
